@@ -44,6 +44,23 @@ struct OpResult {
   bool instance_left = false;
 };
 
+// input files: one memfd per distinct content, kept for the life of the process, so that the same file (same inode, same size,
+// same mtime) is presented again whenever the same bytes are - as when a user verifies a file and then decrypts it. A process-wide
+// cache inside wencry keyed on file identity only shows with such reuse. The entry is dropped if an operation changed its input.
+inline int input_fd_for(const Bytes &d) {
+  static std::map<std::string, int> cache;
+  std::string k((const char *)d.data(), d.size());
+  auto it = cache.find(k);
+  if (it != cache.end()) {
+    if (vfc::slurp_fd(it->second) == d) { lseek(it->second, 0, SEEK_SET); return it->second; }
+    close(it->second);
+    cache.erase(it);
+  }
+  if (cache.size() >= 48) { for (auto &e : cache) close(e.second); cache.clear(); }
+  int fd = vfc::memfd_with(d);
+  cache[k] = fd;
+  return fd;
+}
 inline Bytes cstr_seed(const std::string &s) { Bytes b(s.begin(), s.end()); b.push_back(0); if (b.size() < 256) b.resize(256, 0); return b; }
 
 // T: worker threads; seed: NUL-terminated, at most 255 characters
@@ -71,7 +88,7 @@ inline OpResult wc_encrypt(const Bytes &P, const unsigned char *key16, int cmode
 }
 inline OpResult wc_decrypt(const Bytes &F, const unsigned char *key16, int T) {
   OpResult r;
-  int ifd = vfc::memfd_with(F), ofd = vfc::memfd_with({});
+  int ifd = input_fd_for(F), ofd = vfc::memfd_with({});
   FILE *fi = vfc::fopen_fd(ifd, "rb"), *fout = vfc::fopen_fd(ofd, "wb+");
   unsigned char key[16];
   memcpy(key, key16, 16);
@@ -86,13 +103,12 @@ inline OpResult wc_decrypt(const Bytes &F, const unsigned char *key16, int T) {
   r.input_intact = (vfc::slurp_fd(ifd) == F);
   r.leftover_live = bufferctrl::live_num;
   r.instance_left = buffergroup::instance != NULL;
-  close(ifd);
   close(ofd);
   return r;
 }
 inline OpResult wc_verify(const Bytes &F, const unsigned char *key16, int T, bool with_out_stream = true) {
   OpResult r;
-  int ifd = vfc::memfd_with(F), ofd = vfc::memfd_with({});
+  int ifd = input_fd_for(F), ofd = vfc::memfd_with({});
   FILE *fi = vfc::fopen_fd(ifd, "rb"), *fout = with_out_stream ? vfc::fopen_fd(ofd, "wb+") : NULL;
   unsigned char key[16];
   memcpy(key, key16, 16);
@@ -107,7 +123,6 @@ inline OpResult wc_verify(const Bytes &F, const unsigned char *key16, int T, boo
   r.input_intact = (vfc::slurp_fd(ifd) == F);
   r.leftover_live = bufferctrl::live_num;
   r.instance_left = buffergroup::instance != NULL;
-  close(ifd);
   close(ofd);
   return r;
 }
